@@ -24,6 +24,8 @@ Obs == /\ Is("obs") /\ l' = l + 1
               \cup (IF \E p \in repPairs \ exp : TRUE THEN {<<"C06", "a link that was replaced or lost is still reported", hi>>} ELSE {})
               \cup (IF \E p \in exp \ repPairs : TRUE THEN {<<"C06", "an established link that was not lost is not reported (removed by the loss of an older link?)", hi>>} ELSE {})
               \cup (IF Len(E.reported) # Cardinality(repPairs) THEN {<<"C06", "the same link is reported more than once", hi>>} ELSE {})
+              \cup (IF \E a \in Addrs : E.cur[a].id # occ[a] \/ E.cur[a].closed
+                    THEN {<<"C06", "the transport's address table does not name the open link of the endpoint at the address (a newer link removed by the loss of an older one?)", hi>>} ELSE {})
        /\ UNCHANGED <<hi, occ>>
 Next == Reset \/ Event \/ Obs
 Spec == Init /\ [][Next]_vars
